@@ -40,6 +40,15 @@ Section Order.
   Notation T := (carrier NN).
   Local Open Scope num_scope.
 
+  (* f64::partial_cmp: from the two comparisons; neither holds for a NaN *)
+  Definition f64_partial_cmp (s o : T) : option comparison :=
+    match s <=? o, o <=? s with
+    | false, false => None
+    | false, true => Some Gt
+    | true, false => Some Lt
+    | true, true => Some Eq
+    end.
+
   Definition score_cmp (a b : option T) : option comparison :=
     match a, b with
     | Some s, Some o =>
@@ -64,3 +73,6 @@ Section Order.
   (* Iterator::max (sequential) folds with Ord::cmp = partial_cmp().unwrap(): None = a panic *)
   Definition cmp_unwrap (a b : option T) : option comparison := score_cmp a b.
 End Order.
+
+(* Option::unwrap in a translation that carries "None = a panic" along *)
+Definition unwrap_or_panic {A} (o : option A) : option A := o.
